@@ -27,6 +27,9 @@ pub struct Profile {
     pub w_ignored: usize,
     pub w_write: usize,
     pub w_set_prompt: usize,
+    /// multi-step motifs that a soup of independent keys rarely assembles (completion with the cursor inside and blanks
+    /// behind it, recall of a multi-byte line followed by edits, a line filled to the last byte and then edited, ...)
+    pub w_motif: usize,
     pub min_keys: usize,
     pub max_keys: usize,
     pub sets: Vec<SetKind>,
@@ -57,9 +60,10 @@ impl Profile {
             w_ignored: 1,
             w_write: 0,
             w_set_prompt: 0,
+            w_motif: 3,
             min_keys: 10,
             max_keys: 80,
-            sets: vec![SetKind::Raw, SetKind::FixA, SetKind::FixG],
+            sets: vec![SetKind::Raw, SetKind::FixA, SetKind::FixG, SetKind::FixU],
             cmd_sizes: CMD_SIZES.to_vec(),
             hist_sizes: HIST_SIZES.to_vec(),
             handler_level: 2,
@@ -87,7 +91,7 @@ pub fn gen_calls(rng: &mut Rng) -> Vec<WCall> {
     let n = [0usize, 1, 1, 1, 2, 2, 3, 4][rng.below(8)];
     (0..n)
         .map(|_| WCall {
-            kind: *rng.pick(&[WKind::Str, WKind::Str, WKind::Ln, WKind::Ufmt, WKind::Fmt, WKind::Fmt2]),
+            kind: *rng.pick(&[WKind::Str, WKind::Str, WKind::Str, WKind::Ln, WKind::Ln, WKind::Ufmt, WKind::Fmt, WKind::Fmt2, WKind::UfmtCh, WKind::FmtCh, WKind::FmtPad, WKind::FmtDbg, WKind::Ch]),
             text: gen_text(rng),
         })
         .collect()
@@ -128,6 +132,115 @@ pub fn enter_bytes(rng: &mut Rng) -> Vec<u8> {
     }
 }
 
+const LEFT: [u8; 3] = [0x1b, b'[', b'D'];
+const RIGHT: [u8; 3] = [0x1b, b'[', b'C'];
+const UP: [u8; 3] = [0x1b, b'[', b'A'];
+const DOWN: [u8; 3] = [0x1b, b'[', b'B'];
+
+/// a few cursor-relative edits: what makes a silently wrong cursor / length visible
+fn follow_up(rng: &mut Rng, out: &mut Vec<Vec<u8>>) {
+    for _ in 0..rng.range(0, 4) {
+        match rng.below(6) {
+            0 | 1 => out.push(vec![0x08]),
+            2 => out.push(LEFT.to_vec()),
+            3 => out.push(RIGHT.to_vec()),
+            _ => out.push(SIGMA[rng.weighted(&SIGMA_W)].as_bytes().to_vec()),
+        }
+    }
+}
+
+/// One multi-step motif as a list of keys (each key a byte string).
+pub fn gen_motif(rng: &mut Rng, p: &Profile, dict: &[String], cmd: usize) -> Vec<Vec<u8>> {
+    let mut out: Vec<Vec<u8>> = vec![];
+    let word = |rng: &mut Rng| -> String {
+        let w = rng.pick(dict).clone();
+        let n = w.chars().count();
+        let k = if rng.chance(25) { n } else { rng.range(1, n) };
+        w.chars().take(k).collect()
+    };
+    let kind = rng.below(if p.w_tab == 0 { 3 } else { 6 });
+    match kind {
+        // recall a (multi-byte) line, then edit it relative to the cursor, submit
+        0 | 1 => {
+            if p.w_up == 0 {
+                return out;
+            }
+            for _ in 0..rng.range(1, 3) {
+                let l = *rng.pick(&["é", "éé", "a€b", "𐍈 é", "ab", "ю-é €", "abc"]);
+                out.push(l.as_bytes().to_vec());
+                out.push(enter_bytes(rng));
+            }
+            if rng.chance(60) {
+                // something else is on the line when the recall happens
+                for _ in 0..rng.range(1, 5) {
+                    out.push(SIGMA[rng.weighted(&SIGMA_W)].as_bytes().to_vec());
+                }
+            }
+            for _ in 0..rng.range(1, 3) {
+                out.push(if rng.chance(75) { UP.to_vec() } else { DOWN.to_vec() });
+            }
+            follow_up(rng, &mut out);
+            if rng.chance(70) {
+                out.push(enter_bytes(rng));
+            }
+        }
+        // fill the line to the last byte, then edit inside it
+        2 => {
+            if cmd == 0 || cmd > 24 {
+                return out;
+            }
+            for _ in 0..cmd + 1 {
+                out.push(SIGMA[rng.weighted(&SIGMA_W)].as_bytes().to_vec());
+            }
+            for _ in 0..rng.range(0, 3) {
+                out.push(LEFT.to_vec());
+            }
+            follow_up(rng, &mut out);
+            if p.w_tab > 0 && rng.chance(30) {
+                out.push(vec![0x09]);
+            }
+            if rng.chance(50) {
+                out.push(enter_bytes(rng));
+            }
+        }
+        // completion: [blanks] word [argument] [blanks], cursor moved inside, Tab (twice), cursor-relative edits, submit
+        _ => {
+            out.push(vec![0x0d]); // start from an empty line
+            for _ in 0..[0usize, 0, 0, 1, 2][rng.below(5)] {
+                out.push(b" ".to_vec());
+            }
+            let w = if rng.chance(8) { String::new() } else { word(rng) };
+            let mut chars = w.chars().count();
+            out.push(w.into_bytes());
+            if rng.chance(30) {
+                // an argument has been started
+                out.push(b" ".to_vec());
+                let a = *rng.pick(&["x", "led", "-v", "é", "h"]);
+                chars += 1 + a.chars().count();
+                out.push(a.as_bytes().to_vec());
+            }
+            let blanks = [0usize, 1, 1, 2, 3][rng.below(5)];
+            for _ in 0..blanks {
+                out.push(b" ".to_vec());
+            }
+            let back = if rng.chance(30) { 0 } else { rng.range(1, chars + blanks + 1) };
+            for _ in 0..back {
+                out.push(LEFT.to_vec());
+            }
+            out.push(vec![0x09]);
+            if rng.chance(25) {
+                out.push(vec![0x09]);
+            }
+            follow_up(rng, &mut out);
+            if rng.chance(75) {
+                out.push(enter_bytes(rng));
+            }
+        }
+    }
+    out.retain(|k| !k.is_empty());
+    out
+}
+
 /// Generate one session. Keys are rendered to bytes; application calls are injected
 /// between keys, or (profile.inject_between_bytes) between any two bytes.
 pub fn gen_session(rng: &mut Rng, p: &Profile) -> (SessionCfg, Vec<Op>) {
@@ -147,7 +260,7 @@ pub fn gen_session(rng: &mut Rng, p: &Profile) -> (SessionCfg, Vec<Op>) {
     dict.push("help".into());
     let weights = [
         p.w_char, p.w_word, p.w_pool_line, p.w_backspace, p.w_left, p.w_right, p.w_up, p.w_down, p.w_tab, p.w_enter, p.w_ignored,
-        p.w_write, p.w_set_prompt,
+        p.w_write, p.w_set_prompt, p.w_motif,
     ];
     let nkeys = rng.range(p.min_keys, p.max_keys);
     let mut ops: Vec<Op> = Vec::new();
@@ -228,7 +341,13 @@ pub fn gen_session(rng: &mut Rng, p: &Profile) -> (SessionCfg, Vec<Op>) {
                 let c = gen_calls(rng);
                 ops.push(Op::Write(c));
             }
-            _ => ops.push(Op::SetPrompt(rng.below(PROMPTS.len()))),
+            12 => ops.push(Op::SetPrompt(rng.below(PROMPTS.len()))),
+            _ => {
+                let keys = gen_motif(rng, p, &dict, cfg.cmd);
+                for k in keys {
+                    push_bytes(&mut ops, rng, &k);
+                }
+            }
         }
     }
     if p.end_probe {
